@@ -534,6 +534,50 @@ class BaseProject(object, metaclass=ABCMeta):
         )[0]
         return task in workplace.targeted_task_list
 
+    def __can_move_component(self, component, moved_component_list):
+        # A component moves at most once per step, and never while one of its
+        # tasks (or a task of a component moving with it) is working or has
+        # just been given resources at the current workplace.
+        if any(component is c for c in moved_component_list):
+            return False
+        for task in component.targeted_task_list:
+            if task.state == BaseTaskState.WORKING:
+                return False
+            if (
+                len(task.allocated_worker_list) > 0
+                or len(task.allocated_facility_list) > 0
+            ):
+                return False
+        for child_c in component.child_component_list:
+            if not self.__can_move_component(child_c, moved_component_list):
+                return False
+        return True
+
+    def __conveyor_condition(self, component, workplace):
+        # A workplace with input workplaces accepts a component (and the
+        # components moving with it) only from one of those or from nowhere.
+        if len(workplace.input_workplace_list) > 0:
+            if component.placed_workplace is not None and not (
+                component.placed_workplace in workplace.input_workplace_list
+            ):
+                return False
+        for child_c in component.child_component_list:
+            if not self.__conveyor_condition(child_c, workplace):
+                return False
+        return True
+
+    def __detach_component_tree(self, component, moved_component_list):
+        # Take the component and all of its descendants away from the
+        # workplaces where they are placed now.
+        moved_component_list.append(component)
+        workplace = component.placed_workplace
+        if workplace is not None:
+            if component in workplace.placed_component_list:
+                workplace.placed_component_list.remove(component)
+            component.placed_workplace = None
+        for child_c in component.child_component_list:
+            self.__detach_component_tree(child_c, moved_component_list)
+
     def __allocate(
         self,
         task_priority_rule=TaskPriorityRuleMode.TSLACK,
@@ -564,12 +608,15 @@ class BaseProject(object, metaclass=ABCMeta):
 
         # 3. Allocate ready tasks to free workers and facilities
         target_workplace_id_list = [wp.ID for wp in self.organization.workplace_list]
+        moved_component_list = []  # components moved in this step (at most once each)
 
         for task in ready_and_working_task_list:
             if task.target_component is not None:
                 # 3-1. Set target component of workplace if target component is ready
                 component = task.target_component
-                if component.is_ready():
+                if component.is_ready() and self.__can_move_component(
+                    component, moved_component_list
+                ):
                     candidate_workplace_list = task.allocated_workplace_list
                     candidate_workplace_list = sort_workplace_list(
                         candidate_workplace_list,
@@ -578,15 +625,9 @@ class BaseProject(object, metaclass=ABCMeta):
                     )
                     for workplace in candidate_workplace_list:
                         if workplace.ID in target_workplace_id_list:
-                            conveyor_condition = True
-                            if len(workplace.input_workplace_list) > 0:
-                                if component.placed_workplace is None:
-                                    conveyor_condition = True
-                                elif not (
-                                    component.placed_workplace
-                                    in workplace.input_workplace_list
-                                ):
-                                    conveyor_condition = False
+                            conveyor_condition = self.__conveyor_condition(
+                                component, workplace
+                            )
 
                             if (
                                 conveyor_condition
@@ -595,24 +636,11 @@ class BaseProject(object, metaclass=ABCMeta):
                                 > 1e-10
                             ):
                                 # 3-1-1. move ready_component
-                                pre_workplace = component.placed_workplace
-
-                                # 3-1-1-1. remove
-                                if pre_workplace is None:
-                                    for child_c in component.child_component_list:
-                                        wp = child_c.placed_workplace
-                                        if wp is not None:
-                                            for c_wp in wp.placed_component_list:
-                                                if task.target_component.ID in [
-                                                    c.ID
-                                                    for c in c_wp.parent_component_list
-                                                ]:
-                                                    wp.remove_placed_component(c_wp)
-
-                                elif pre_workplace is not None:
-                                    pre_workplace.remove_placed_component(component)
-
-                                component.set_placed_workplace(None)
+                                # 3-1-1-1. remove the component and all of its
+                                # descendants from wherever they are placed now
+                                self.__detach_component_tree(
+                                    component, moved_component_list
+                                )
 
                                 # 3-1-1-2. regsister
                                 component.set_placed_workplace(workplace)
